@@ -236,15 +236,12 @@ impl ToZinc for Uri {
         writer.write_all(b"`")?;
         let mut buf = [0; 4];
         for c in self.value.chars() {
-            if c < ' ' {
-                continue;
-            }
             match c {
                 '`' => writer.write_all(br"\`")?,
                 // The decoder keeps `\\` as two chars, the unicode escape reads back as one backslash
                 '\\' => writer.write_all(br"\u005c")?,
                 '\x20'..='\x7e' => writer.write_all(&[c as u8])?,
-                // A unicode escape holds 4 hex digits only
+                // A unicode escape holds 4 hex digits only; control chars are escaped, not dropped
                 _ if c as u32 > 0xFFFF => writer.write_all(c.encode_utf8(&mut buf).as_bytes())?,
                 _ => writer.write_fmt(format_args!("\\u{:04x}", c as u32))?,
             }
